@@ -1528,7 +1528,10 @@ Qed.
 Lemma wf_nth j ds it : forallb (wf_item T) ds = true -> nth_error ds j = Some it -> wf_item T it = true.
 Proof. intros H Hn. rewrite forallb_forall in H. apply H. eapply nth_error_In. exact Hn. Qed.
 Lemma wf_skipn j ds : forallb (wf_item T) ds = true -> forallb (wf_item T) (skipn j ds) = true.
-Proof. intro H. rewrite forallb_forall in *. intros x Hx. apply H. eapply In_skipn. exact Hx. Qed.
+Proof.
+  revert ds. induction j as [|j IH]; intros ds H; [exact H|]. destruct ds as [|x ds]; [reflexivity|].
+  cbn [forallb] in H. apply andb_true_iff in H as [_ H]. cbn [skipn]. apply IH. exact H.
+Qed.
 
 Section BadLines.
 Hypothesis Hmerged' : comment_merged T = false.
